@@ -386,8 +386,13 @@ class Specifier(BaseSpecifier):
 
         # We want everything but the last item in the version, but we want to
         # ignore suffix segments.
+        # The specifier may use any spelling of the version ("1.2.RC1",
+        # "v1.2", "1.2-preview1"), so split its normalized form.
+        normalized_spec = canonicalize_version(spec, strip_trailing_zero=False)
         prefix = _version_join(
-            list(itertools.takewhile(_is_not_suffix, _version_split(spec)))[:-1]
+            list(itertools.takewhile(_is_not_suffix, _version_split(normalized_spec)))[
+                :-1
+            ]
         )
 
         # Add the prefix notation to the end of our string
